@@ -366,6 +366,7 @@ func runC25(c *ctx) {
 	}
 	c25Eval(c)
 	c25PrefilterRoundTrip(c)
+	c25SharedExpressions(c)
 	c25KnownInvalidUTF8(c)
 }
 
@@ -467,5 +468,86 @@ func c25KnownInvalidUTF8(c *ctx) {
 		c.r.Add(Finding{Kind: "violation", Check: "json-roundtrip-invalid-utf8", Key: "invalid-utf8-expression-string",
 			Detail: fmt.Sprintf("Token(%q) becomes Token(%q) after a JSON round trip (encoding/json replaces invalid UTF-8 with U+FFFD)", e.Condition.Token, back.Condition.Token),
 			Replay: map[string]any{"token_bytes": []byte(e.Condition.Token), "json": string(data)}})
+	}
+}
+
+// c25SharedExpressions: expressions are values. One expression (its child slice built with spare capacity, as
+// `And(And(a, b), c)` or any append-built slice has) is handed to several builders and constructors; whatever
+// is built later, a query built earlier - and the shared expression itself - must keep its meaning. Each is
+// snapshotted as JSON when built and compared again after every later construction.
+func c25SharedExpressions(c *ctx) {
+	r := NewRng(c.seed, 251)
+	js := func(v any) string { b, _ := json.Marshal(v); return string(b) }
+	for i := 0; i < 40*c.scale; i++ {
+		n := 2 + r.IntN(3)
+		spare := r.IntN(4)
+		// bloom
+		kids := make([]bs.BloomExpression, 0, n+spare)
+		for j := 0; j < n; j++ {
+			kids = append(kids, bs.FieldToken(fmt.Sprintf("f%d", j), fmt.Sprintf("v%d", j)))
+		}
+		var base bs.BloomExpression
+		switch r.Pick(3) {
+		case 0:
+			base = bs.BloomExpression{ExpressionType: bs.BloomExpressionAnd, Children: kids}
+		case 1:
+			base = bs.BloomExpression{ExpressionType: bs.BloomExpressionOr, Children: kids}
+		default:
+			base = bs.And(bs.And(kids[:n-1]...), kids[n-1]) // the flattening constructor's own result
+		}
+		// regex
+		rkids := make([]bs.RegexExpression, 0, n+spare)
+		for j := 0; j < n; j++ {
+			rkids = append(rkids, bs.FieldRegex(fmt.Sprintf("f%d", j), fmt.Sprintf("^v%d", j)))
+		}
+		rbase := bs.RegexExpression{ExpressionType: pick(r, []bs.RegexExpressionType{bs.RegexExpressionAnd, bs.RegexExpressionOr}), Children: rkids}
+		if r.Chance(0.3) {
+			rbase = bs.RegexAnd(bs.RegexAnd(rkids[:n-1]...), rkids[n-1])
+		}
+		baseSnap, rbaseSnap := js(base), js(rbase)
+		type built struct {
+			what string
+			v    any
+			snap string
+		}
+		var all []built
+		add := func(what string, v any) { all = append(all, built{what, v, js(v)}) }
+		steps := 2 + r.IntN(3)
+		for s := 0; s < steps; s++ {
+			tag := fmt.Sprintf("x%d", s)
+			switch r.Pick(6) {
+			case 0:
+				add("NewQuery().Match(base).FieldToken", bs.NewQuery().Match(base).FieldToken("region", tag).Build())
+			case 1:
+				add("NewQuery().Match(base).Token", bs.NewQuery().Match(base).Token(tag).Field("k"+tag).Build())
+			case 2:
+				e := bs.And(base, bs.Token(tag))
+				add("And(base, Token)", &e)
+			case 3:
+				e := bs.Or(base, bs.Token(tag))
+				add("Or(base, Token)", &e)
+			case 4:
+				add("NewQuery().MatchRegex(rbase).FieldRegex", bs.NewQuery().MatchRegex(rbase).FieldRegex("msg", tag).Build())
+			default:
+				e := bs.RegexAnd(rbase, bs.FieldRegex("msg", tag))
+				add("RegexAnd(rbase, FieldRegex)", &e)
+			}
+			c.r.Case(true, fmt.Sprint("shared-expr", i, s))
+			c.r.Hit("c25.shared-expression")
+			bad := ""
+			for _, b := range all[:len(all)-1] {
+				if now := js(b.v); now != b.snap {
+					bad = fmt.Sprintf("the value built earlier by %s changed after %s was built from the same expression: %s -> %s", b.what, all[len(all)-1].what, trunc(b.snap, 200), trunc(now, 200))
+					break
+				}
+			}
+			if bad == "" && (js(base) != baseSnap || js(rbase) != rbaseSnap) {
+				bad = fmt.Sprintf("the shared expression itself changed after %s was built from it", all[len(all)-1].what)
+			}
+			if bad != "" {
+				c.r.Add(Finding{Kind: "violation", Check: "expression-aliasing", Detail: bad, Replay: map[string]any{"children": n, "spare_capacity": spare, "base": baseSnap, "regex_base": rbaseSnap}})
+				break
+			}
+		}
 	}
 }
